@@ -15,12 +15,15 @@ SPEC = {
     "modules": ["HC.Props.C07", "HC.Props.C03"],
     "extracted": ["ConnGuards"],
     "technique": "Lean 4 invariants of the timed connection model (virtual clock, single restartable timer slot, deadline = start + keep_alive_timeout, time cannot pass an armed deadline) proved for all operation sequences and all timeout values; tied by trace acceptance of the real TCPServer under virtual time on both workers (exact close / completion instants), monitors on the implementation's timestamps, and Updated(idle=..) call sites / timer wiring regenerated from the AST",
-    "level_text": "Proved for every configuration and operation sequence: while the idle timer is armed no request is in progress and no WebSocket is open (so the timer never closes a busy connection); an armed deadline is exactly (start of idleness) + keep_alive_timeout and virtual time cannot pass it; on a connection without streams the expiry step is enabled exactly at the deadline (at once during shutdown, when no time may pass first) and closes the transport at that instant; bytes that do not complete a head leave timer and deadline untouched; a reader waiting on a transport the server closed is never quiescent; when reader, applications, closer tasks and timer have ended the handler exits at once with the transport closed.  Tie: pause at every point of 13 canonical histories x {T-eps, T, T+eps} x T in {0.01, 1, 5, 3600} (quick: sampled) plus random histories, both workers, replayed by the model's acceptor and judged by monitors (busy/timer overlap, idle longer than T, exact expiry instant, release instant, live tasks).",
+    "level_text": "Proved for every configuration and operation sequence: while the idle timer is armed no request is in progress and no WebSocket is open (so the timer never closes a busy connection); an armed deadline is exactly (start of idleness) + keep_alive_timeout and virtual time cannot pass it; on a connection without streams the expiry step is enabled exactly at the deadline (at once during shutdown, when no time may pass first) and closes the transport at that instant; bytes that do not complete a head leave timer and deadline untouched; a reader waiting on a transport the server closed is never quiescent; on a prior-knowledge HTTP/2 connection the wrapper's Updated(idle=True) is processed while no stream exists and before the bytes behind the preface; a server-side close on trio releases a writer the peer keeps waiting, which then reports the closure; when reader, applications, closer tasks and timer have ended the handler exits at once with the transport closed.  Tie: pause at every point of 13 canonical histories x {T-eps, T, T+eps} x T in {0.01, 1, 5, 3600} (quick: sampled) plus random histories, both workers, replayed by the model's acceptor and judged by monitors (busy/timer overlap, idle longer than T, exact expiry instant, release instant, live tasks).",
     "level_note": "Trusted: Lean kernel; the model HC/Conn/Server.lean (tied by trace acceptance); virtual-time loops of the harness (asyncio SelectorEventLoop subclass, trio MockClock); the recording wrapper around context.terminated as the observation of the timer task; 'as soon as' = same virtual millisecond.  'released' is proved for the final step and for the reader noticing the close; that a parked reader is released is tied by the differential and by decided witnesses.",
     "rule": "canonical history x pause position x pause length x timeout x worker (+ random histories); distinct = each such cell; non-trivial = the pause is within 1 ms of the timeout or the peer leaves",
     "trusted": ["harness virtual clocks", "RecordingEvent wrapper of context.terminated"],
     "partial": ["F08 (known): queue full and application gone: the handler never finishes",
-                "WebSocket over HTTP/2 is not modelled (HTTP/2 streams are HTTP)"],
+                "WebSocket over HTTP/2 is not modelled (HTTP/2 streams are HTTP)",
+                "cleartext HTTP/2: prior knowledge and the h2c upgrade (without request body) are generated and modelled; an h2c request the stream answers by itself during shutdown is not",
+                "transport back-pressure (peer not reading) is generated on HTTP/1 and WebSocket connections only",
+                "F95 (known): the prior-knowledge preface restarts the idle timer; F96 (known): asyncio close() does not release a writer waiting in drain(); F97 (known): peer EOF while a write is held up closes nothing"],
     "assumptions": ["a stream whose disconnect was handed over (peer left / reset) no longer counts as a request in progress",
                     "peer loss counts from the instant the client acted; the handler must finish by max(that, last application return)"],
 }
@@ -69,7 +72,12 @@ def monitor(ctx: Ctx, case: dict, sc: dict, an: dict) -> None:
             continue
         after = "start" if s == 0 else "request"
         if e - s > T:
-            ctx.violation("idle_not_closed", case, {"idle": [s, e], "T": T, "closed_at": an["closed_at"]}, {**sig0, "after": after})
+            # cleartext HTTP/2 by prior knowledge: was the idle period within T when counted from the arrival of the preface
+            # line (which itself arrived before the deadline)?  Then the preface restarted the timer (known: F95)
+            pa = an.get("preface_at")
+            restarted = bool(an.get("via") == "prior" and pa is not None and s < pa <= s + T and e - pa <= T)
+            ctx.violation("idle_not_closed", case, {"idle": [s, e], "T": T, "closed_at": an["closed_at"], "preface_at": pa},
+                          {**sig0, "after": after, "restarted_by_preface": restarted})
         term = an["terminated_at"]
         if term is not None and e > max(s, term) and e == conn_end:
             ctx.violation("not_closed_at_shutdown", case, {"idle": [s, e], "terminated_at": term}, sig0)
@@ -84,14 +92,22 @@ def monitor(ctx: Ctx, case: dict, sc: dict, an: dict) -> None:
         if b is not None and b - a > T:
             ctx.violation("timer_late", case, {"wait": [a, b], "T": T}, sig0)
     # (4) released: peer gone / server closed, applications returned => handler finished, transport closed, nothing alive
-    gone = [t for t in (an["client"]["gone_at"], an["closed_at"]) if t is not None]
+    # (the server has decided to close once it has begun to: its first write_eof / send_eof / close / aclose call on the transport)
+    gone = [t for t in (an["client"]["gone_at"], an["closed_at"], an.get("close_begin_at")) if t is not None]
     if gone:
         t_gone = min(gone)
         apps = [x for x in an["instances"].values() if x["app"] is not None]
         stuck_apps = [x["i"] for x in apps if x["t_exit"] is None]
+        held = [[x["i"], x["in_send"]] for x in apps if x["t_exit"] is None and x.get("in_send") is not None]
         t_apps = max([x["t_exit"] for x in apps if x["t_exit"] is not None] or [0])
         sig = dict(sig0)
-        if stuck_apps and not blocked:
+        if held and not blocked and end - t_gone >= 1000:
+            # an application that has not returned because the SERVER has not answered its `send()` - seconds after the
+            # connection was given up - is not an application that keeps the connection: the server holds it
+            ctx.violation("released", case, {"gone_at": t_gone, "close_begun_at": an.get("close_begin_at"), "closed_at": an["closed_at"], "held_in_send": held,
+                                             "done_at": an["done_at"], "observed_until": end},
+                          {**sig, "why": "application_held_in_send", "worker": case.get("worker"), "server_close_begun": an.get("close_begin_at") is not None})
+        elif stuck_apps and not blocked:
             # an application that has not returned (it waits for a disconnect the server cannot know about: the reader is parked
             # behind this very request and nothing is written) - the statement speaks of what follows the applications' return
             ctx.count("not_judged", "application_never_returned")
@@ -140,7 +156,8 @@ def run(ctx: Ctx) -> None:
     ctx.extra["grid_size"] = len(g)
     if not ctx.thorough:
         # every quick run contains the late-finish histories (an abandoned stream whose application ends later must not prolong idleness)
-        must = [c for c in g if c["key"][0] in ("h2_rst_late_finish", "h1_reset_late_finish") and c["key"][4] == 1 and c["key"][2] == 1 + EPS and c["key"][3] is None]
+        must = [c for c in g if c["key"][0] in ("h2_rst_late_finish", "h1_reset_late_finish", "h2_prior_slow", "h2_prior_preface_then_slow", "h2_slow", "h2_prior_late_preface", "h2c_slow", "h2c_then_get")
+                and c["key"][4] == 1 and c["key"][2] == 1 + EPS and c["key"][3] is None]
         rest = [c for c in g if c not in must]
         ctx.rng.shuffle(rest)
         g = must + rest[:240]
@@ -151,6 +168,12 @@ def run(ctx: Ctx) -> None:
         ctx.distinct(c["key"])
     ctx.sample({"canonical": g[0]["key"], "client": [a[0] for a in g[0]["client"]]} if g else {}, cap=1)
     K.run_cases(ctx, g, monitor)
+    # the peer does not read: the server decides to close / the peer leaves while an application's write is held up
+    bw = K.blocked_write_corpus()
+    for c in bw:
+        ctx.count("blocked_write", c["key"][2])
+        ctx.distinct(c["key"])
+    K.run_cases(ctx, bw, monitor)
     rnd = gen(ctx, ctx.budget(150, 5000))
     for c in rnd:
         ctx.count("family", c["family"])
